@@ -474,6 +474,90 @@ class C07(Prop):
         return None
     def nontrivial(self, op, line): return line.startswith("VEL some") or line.startswith("OK")
 
+import gentrack, trackref
+
+def numeq(x, y, tol=1e-3):
+    px = re.split(r"(-?\d+\.\d+)", x); py = re.split(r"(-?\d+\.\d+)", y)
+    if len(px) != len(py): return False
+    for i, (u, v) in enumerate(zip(px, py)):
+        if i % 2 == 0:
+            if u != v: return False
+        elif abs(float(u) - float(v)) > tol: return False
+    return True
+
+def _recs(line):
+    try: return trackref.parse_map(line)
+    except Exception: return None
+
+class TrackerProp(Prop):
+    stateful = True
+    deps = ["shape:get_position", "shape:AirborneVelocity::calculate"]
+    technique = "Lean 4 theorems (induction over histories, invariants) over a model of the tracker generic in geometry and clock + differential correspondence on generated histories + reference oracle"
+    histories = (60, 150)
+    def ops(self, rng, tier):
+        n, ln = self.histories
+        if tier != "quick": n *= 8
+        ops = []
+        for h in range(n):
+            ops += gentrack.history(rng, ln, n_planes=1 + rng.below(5), with_time=self.with_time)
+        return ops
+    with_time = True
+    def equal(self, a, m): return a == m or numeq(a, m)
+    def spec_seq(self, ops, lines):
+        out = []
+        # histories are separated by `T reset`
+        start = 0
+        idx = [i for i, o in enumerate(ops) if o.startswith("T reset")] + [len(ops)]
+        for a, b in zip(idx, idx[1:]):
+            for (i, pid, msg) in trackref.Ref().check(ops[a:b], lines[a:b]):
+                if pid == self.id or (pid == "C01" and self.id == "C12"): out.append((a + i, msg))
+        return out
+    def nontrivial(self, op, line): return line.startswith("ADDED") or line.startswith("MAP")
+    def fields(self, rec): return rec
+    def project(self, op, line):
+        r = _recs(line) if ("MAP " in line) else None
+        if r is None: return line.split()[0] if line else line
+        n, allpos, recs, order = r
+        return (line.split()[0], line.split()[1] if line.startswith("ADDED") else "", tuple(order), self.pick(allpos, recs, order))
+
+class C12(TrackerProp):
+    id = "C12"; module = "Adsb.Theorems.C12"; design_ref = "5/C12"
+    deps = []
+    rule = ("generated histories (60 x 150 ops quick): 1-5 interleaved aircraft (DF17 and DF18, announced address != parity), identification / velocity / "
+            "position (consistent flights, jumps, garbage, repeats) / other type codes / other downlink formats, waits and expiry calls; after every "
+            "operation the whole map is compared; non-trivial = operations on a non-empty tracker")
+    claim = "added iff new, count +1 per tracked frame, other formats no-op, isolation over arbitrary interleavings, keys sorted/unique (theorems for every history)"
+    def pick(self, allpos, recs, order): return tuple((k, recs[k]["msgs"]) for k in order)
+
+class C13(TrackerProp):
+    id = "C13"; module = "Adsb.Theorems.C13"; design_ref = "5/C13"
+    rule = C12.rule + "; receivers at 6 sites incl. high latitude and the antimeridian, ranges 150-1000 km"
+    claim = "publish iff both reports stored, pairing in range and within the jump limit; otherwise the record is cleared; invariant: published position = pairing of stored reports, distance = receiver distance, for every reachable state"
+    note = "the haversine formula and the CPR pairing are parameters of the theorems; the concrete functions are tied numerically (reference great-circle distance and exact-arithmetic CPR decode in tools/cprspec.py)"
+    with_time = False
+    def pick(self, allpos, recs, order): return tuple((k, recs[k]["e"], recs[k]["o"], recs[k]["pos"], recs[k]["kd"]) for k in order)
+    def project(self, op, line):
+        r = TrackerProp.project(self, op, line)
+        return r
+    def equalproj(self, a, b): return numeq(str(a), str(b))
+
+class C14(TrackerProp):
+    id = "C14"; module = "Adsb.Theorems.C14"; design_ref = "5/C14"
+    rule = C12.rule
+    claim = "callsign / velocity latest-wins, altitude of a stored report, details iff position+altitude+distance, position list = records with a position, distance iff position (invariant), track = previously published positions in order"
+    with_time = False
+    def pick(self, allpos, recs, order): return (tuple(allpos),) + tuple((k, recs[k]["cs"], recs[k]["vel"], recs[k]["details"], recs[k]["track"]) for k in order)
+    def equalproj(self, a, b): return numeq(str(a), str(b))
+
+class C15(TrackerProp):
+    id = "C15"; module = "Adsb.Theorems.C15"; design_ref = "5/C15"
+    deps = []
+    rule = C12.rule + "; waits on both sides of each threshold T in {0,1,2,120} s by 60 ms (clock advanced through the verif_age_all hook)"
+    claim = "prune(T) keeps exactly the records heard less than T seconds ago, unchanged; a reappearing aircraft is added fresh (theorems; the wall clock is a parameter)"
+    note = "the real clock is replaced by the cfg-guarded hook Airplanes::verif_age_all in the correspondence (equivalent to advancing the clock); real elapsed time between operations is below the 60 ms margin"
+    histories = (80, 120)
+    def pick(self, allpos, recs, order): return tuple(order)
+
 ALL = {}
-for c in [C02, C03, C04, C06, C07, C08, C09, C10]:
+for c in [C02, C03, C04, C06, C07, C08, C09, C10, C12, C13, C14, C15]:
     ALL[c.id] = c
